@@ -1,7 +1,9 @@
 (* A second small imperative language: the fragment of Rust that the construction operations of
    src/element.rs are written in (`add_unique`, `Element::new`, `set_multiple`, `get_child`,
-   `remove_child`, `add_unique_child`, `set_child_optional`), with a total evaluator over the
-   model's own `element` values.  bin/translate parses the CURRENT text of those functions into
+   `remove_child`, `add_unique_child`, `set_child_optional`) and the two tree functions of
+   src/parser.rs that decide which children become optional (`count_children`,
+   `tag_optional_children`) are written in, with a total evaluator over the model's own `element`
+   values.  bin/translate parses the CURRENT text of those functions into
    terms of this language on every run (coq/Generated/ElementRs.v); Proofs/ElementRsProofs.v proves
    that running each term is the corresponding function of Model/Element.v for every input.
    Trusted: the translator and the reading of the primitives fixed here (`iter().find`,
@@ -9,7 +11,7 @@
    equal inner value; Element: equal names —, `remove`, `push`, `len`, `is_some`/`is_none`,
    `inner_t`/`into_inner_t`, field access).  Ownership, borrowing and `&`/`*` are not modelled.
    Definitions only. *)
-From XSG.Model Require Import Strings Necessity Element.
+From XSG.Model Require Import Strings Necessity Element Parser.
 From Coq Require Import String.
 Open Scope list_scope.
 
@@ -32,8 +34,14 @@ Inductive expr :=
 | ERemoveAt (p : place) (i : expr)              (* p.remove(i): the removed item; p loses it *)
 | ECall (f : string) (p : place) (e : expr)     (* f(&mut p, e) / p.f(e): p is written back *)
 | EMatchOpt (e : expr) (x : string) (some_e none_e : expr)   (* match e { Some(x) => .., None => .. } *)
-| ENewElem (name attrs : expr).                 (* Element { name, text: None, count: 1, standalone: true,
+| ENewElem (name attrs : expr)                  (* Element { name, text: None, count: 1, standalone: true,
                                                              attributes: attrs, children: Vec::new(), position: None } *)
+| ENewMap                                       (* HashMap::new() *)
+| EMapGet (m k : expr)                          (* m.get(&k) *)
+| EMapContains (m k : expr)                     (* m.contains_key(&k) *)
+| ECountOf (e : expr)                           (* e.count() *)
+| ENot (e : expr)                               (* !e *)
+| ESnap (m b : expr).                           (* the pair (m, b) returned by count_children *)
 
 Inductive stmt :=
 | SSkip
@@ -45,9 +53,15 @@ Inductive stmt :=
 | SIfLetSome (x : string) (e : expr) (body : stmt)   (* if let Some(x) = e { body } *)
 | SExpr (e : expr)                                    (* e; *)
 | SFor (x : string) (e : expr) (body : stmt)
-| SReturn.                                            (* return; *)
+| SReturn                                             (* return; *)
+| SMapInsert (p : place) (k v : expr)                 (* p.insert(k, v); *)
+| SIfLetMand (x : string) (e : expr) (body : stmt)    (* if let Necessity::Mandatory(x) = e { body } *)
+| SWhilePop (x : string) (p : place) (body : stmt)    (* while let Some(x) = p.pop() { body } *)
+| SWithChildMut (x : string) (p : place) (n : expr) (body : stmt).
+    (* if let Some(t) = p.get_child_mut(&n) { let x = t.inner_t_mut(); body }: body works on the
+       first child of p named n in place *)
 
-Record fn := { fn_p1 : string; fn_p2 : string; fn_body : stmt; fn_result : option expr }.
+Record fn := { fn_p1 : string; fn_p2 : string; fn_p3 : string; fn_body : stmt; fn_result : option expr }.
 
 Inductive val :=
 | VUnit | VBool (b : bool) | VNat (n : nat) | VName (s : str) | VNames (l : list str)
@@ -55,7 +69,10 @@ Inductive val :=
 | VChild (c : nec * element) | VChildren (l : list (nec * element))
 | VAttr (a : nec * str) | VAttrs (l : list (nec * str))
 | VEmptyVec                                   (* Vec::new() before its item type is known *)
-| VNone | VSomeChild (c : nec * element) | VSomeNat (n : nat).
+| VNone | VSomeChild (c : nec * element) | VSomeNat (n : nat)
+| VCount (k : N) | VSomeCount (k : N)         (* u32 / Option<&u32> *)
+| VMap (m : list (str * N))                   (* HashMap<String, u32> as the sequence of its inserts *)
+| VSnap (m : list (str * N)) (b : bool).      (* (HashMap<String, u32>, bool) *)
 
 Definition env := list (string * val).
 
@@ -140,6 +157,7 @@ Section Eval.
         match eval a en with
         | Some (VChild c, en1) => Some (VSomeChild c, en1)
         | Some (VNat n, en1) => Some (VSomeNat n, en1)
+        | Some (VCount k, en1) => Some (VSomeCount k, en1)
         | _ => None end
     | ENone => Some (VNone, en)
     | EIsSome a =>
@@ -178,6 +196,16 @@ Section Eval.
         | Some (VName x, en1) =>
             match eval b en1 with
             | Some (VName y, en2) => Some (VBool (str_eqb x y), en2)
+            | _ => None end
+        | Some (VSomeCount x, en1) =>
+            match eval b en1 with
+            | Some (VSomeCount y, en2) => Some (VBool (x =? y), en2)
+            | Some (VNone, en2) => Some (VBool false, en2)
+            | _ => None end
+        | Some (VNone, en1) =>
+            match eval b en1 with
+            | Some (VSomeCount _, en2) => Some (VBool false, en2)
+            | Some (VNone, en2) => Some (VBool true, en2)
             | _ => None end
         | _ => None end
     | EFind v x pred =>
@@ -257,6 +285,38 @@ Section Eval.
             | Some (VEmptyVec, en2) => Some (VElem (Elem x false true 1 [] [] None), en2)
             | _ => None end
         | _ => None end
+    | ENewMap => Some (VMap [], en)
+    | EMapGet m k =>
+        match eval m en with
+        | Some (VMap l, en1) =>
+            match eval k en1 with
+            | Some (VName n, en2) =>
+                Some (match snap_get l n with Some c => VSomeCount c | None => VNone end, en2)
+            | _ => None end
+        | _ => None end
+    | EMapContains m k =>
+        match eval m en with
+        | Some (VMap l, en1) =>
+            match eval k en1 with
+            | Some (VName n, en2) =>
+                Some (VBool (match snap_get l n with Some _ => true | None => false end), en2)
+            | _ => None end
+        | _ => None end
+    | ECountOf a =>
+        match eval a en with
+        | Some (VElem x, en1) => Some (VCount (ecount x), en1)
+        | _ => None end
+    | ENot a =>
+        match eval a en with
+        | Some (VBool b, en1) => Some (VBool (negb b), en1)
+        | _ => None end
+    | ESnap m b =>
+        match eval m en with
+        | Some (VMap l, en1) =>
+            match eval b en1 with
+            | Some (VBool x, en2) => Some (VSnap l x, en2)
+            | _ => None end
+        | _ => None end
     end.
 
   Inductive flow := Normal | Returned.
@@ -267,6 +327,8 @@ Section Eval.
     | VAttrs l, VAttr a => Some (VAttrs (l ++ [a]))
     | VEmptyVec, VChild c => Some (VChildren [c])
     | VEmptyVec, VAttr a => Some (VAttrs [a])
+    | VNames l, VName n => Some (VNames (l ++ [n]))
+    | VEmptyVec, VName n => Some (VNames [n])
     | _, _ => None
     end.
 
@@ -314,8 +376,76 @@ Section Eval.
                    | Some (en', Normal) => loop r en'
                    | r' => r' end
                end) l en1
+        | Some (VChildren l, en1) =>
+            (fix loop (items : list (nec * element)) (en : env) {struct items} : option (env * flow) :=
+               match items with
+               | [] => Some (en, Normal)
+               | i :: r =>
+                   match exec body ((x, VChild i) :: en) with
+                   | Some (en', Normal) => loop r en'
+                   | r' => r' end
+               end) l en1
         | _ => None end
     | SReturn => Some (en, Returned)
+    | SMapInsert p k v =>
+        match eval k en with
+        | Some (VName n, en1) =>
+            match eval v en1 with
+            | Some (VCount c, en2) =>
+                match read_place p en2 with
+                | Some (VMap l) => match write_place p (VMap (l ++ [(n, c)])) en2 with
+                                   | Some en3 => Some (en3, Normal) | None => None end
+                | _ => None end
+            | _ => None end
+        | _ => None end
+    | SIfLetMand x e body =>
+        match eval e en with
+        | Some (VChild (Mand, c), en1) => exec body ((x, VElem c) :: en1)
+        | Some (VChild (Opt, _), en1) => Some (en1, Normal)
+        | _ => None end
+    | SWhilePop x p body =>
+        match read_place p en with
+        | Some VEmptyVec => Some (en, Normal)
+        | Some (VNames l) =>
+            (fix loop (fuel : nat) (en : env) {struct fuel} : option (env * flow) :=
+               match read_place p en with
+               | Some VEmptyVec => Some (en, Normal)
+               | Some (VNames l') =>
+                   match rev l' with
+                   | [] => Some (en, Normal)
+                   | lst :: rest_rev =>
+                       match fuel with
+                       | O => None                       (* the body grew the list: not supported *)
+                       | S f =>
+                           match write_place p (VNames (rev rest_rev)) en with
+                           | Some en1 =>
+                               match exec body ((x, VName lst) :: en1) with
+                               | Some (en2, Normal) => loop f en2
+                               | r => r end
+                           | None => None end
+                       end
+                   end
+               | _ => None end) (List.length l) en
+        | _ => None end
+    | SWithChildMut x p n body =>
+        match eval n en with
+        | Some (VName nm, en1) =>
+            match read_place p en1 with
+            | Some (VElem root) =>
+                match get_child (echildren root) nm with
+                | None => Some (en1, Normal)
+                | Some c =>
+                    match exec body ((x, VElem (snd c)) :: en1) with
+                    | Some (en2, fl) =>
+                        match lookup x en2 with
+                        | Some (VElem c') =>
+                            match write_place p (VElem (set_children root (update_first (echildren root) nm (fun _ => c')))) en2 with
+                            | Some en3 => Some (en3, fl) | None => None end
+                        | _ => None end
+                    | None => None end
+                end
+            | _ => None end
+        | _ => None end
     end.
 
   (* result and the final value of the first parameter *)
@@ -336,6 +466,16 @@ Section Eval.
     end.
 End Eval.
 
+(* three parameters, by value; the result only *)
+Definition run_fn3 (call : string -> val -> val -> option (val * val)) (f : fn) (a1 a2 a3 : val) : option val :=
+  match exec call (fn_body f) [(fn_p1 f, a1); (fn_p2 f, a2); (fn_p3 f, a3)] with
+  | Some (en, Normal) =>
+      match fn_result f with
+      | Some re => match eval call re en with Some (r, _) => Some r | None => None end
+      | None => Some VUnit end
+  | _ => None
+  end.
+
 Definition no_call : string -> val -> val -> option (val * val) := fun _ _ _ => None.
 (* a table of functions that call nothing (level 0), as the `call` of the functions above them *)
 Definition call_of (tbl : list (string * fn)) : string -> val -> val -> option (val * val) :=
@@ -343,4 +483,11 @@ Definition call_of (tbl : list (string * fn)) : string -> val -> val -> option (
     match find (fun p => String.eqb (fst p) name) tbl with
     | Some p => run_fn no_call (snd p) a1 a2
     | None => None
+    end.
+(* a second table of functions that call only functions of the first *)
+Definition call_of2 (tbl0 tbl1 : list (string * fn)) : string -> val -> val -> option (val * val) :=
+  fun name a1 a2 =>
+    match find (fun p => String.eqb (fst p) name) tbl1 with
+    | Some p => run_fn (call_of tbl0) (snd p) a1 a2
+    | None => call_of tbl0 name a1 a2
     end.
